@@ -42,6 +42,11 @@ type Frame struct {
 	Once         *Ptr // frame is the body of a sync.Once.Do: mark done when it is popped
 }
 
+type watch struct {
+	name string
+	p    Ptr
+}
+
 type panicState struct {
 	Val   Value
 	Pos   token.Pos
@@ -117,6 +122,10 @@ type State struct {
 
 	// symbol name counters for main-less contexts
 	known map[string]bool // known-finding regions active on this path
+	// watches (vWatch): named memory words whose current value is appended to the descriptor
+	// of a parked goroutine whose innermost repository method has the same receiver object;
+	// registered during set-up, append-only (the slice is shared copy-on-append)
+	watches []watch
 }
 
 func newState() *State {
@@ -141,6 +150,7 @@ func (st *State) Clone() *State {
 		undecided: st.undecided,
 		obs:       st.obs,
 		model:     st.model,
+		watches:   st.watches[:len(st.watches):len(st.watches)],
 	}
 	copy(n.heap, st.heap)
 	for i := range st.owned {
